@@ -40,8 +40,8 @@ type lcWorld struct {
 	root    string
 	tag     string
 	handles []*lcHandle
-	stores  map[string]*lcStore            // by bucket name: the currently loaded store (nil if none)
-	onDisk  map[string]map[string]string   // url -> persisted contents of an on-disk bucket that exists
+	stores  map[string]*lcStore          // by bucket name: the currently loaded store (nil if none)
+	onDisk  map[string]map[string]string // url -> persisted contents of an on-disk bucket that exists
 	incs    int
 	devs    []Deviation
 	step    int
